@@ -239,6 +239,68 @@ func c14RunPair(p *c14PairCase) (sig, detail string) {
 	return "", ""
 }
 
+// c14ForkCrossing: an EVM that is moved over the Berlin activation block with SetBlockContext must offer exactly the
+// precompile set of the rules it is under now: built before Berlin and moved behind it, 0x64-0x66 behave as on Berlin;
+// built behind Berlin and moved before it, the addresses are ordinary code-less accounts (no fee, host never called).
+func c14ForkCrossing(w *fw.W) {
+	cfg := *world.Config(world.Berlin)
+	cfg.BerlinBlock = big.NewInt(2000) // world.BlockNumber (1000) lies before it
+	var payload66 []byte
+	mc.Replay(nil, func(c *mc.Ctx) { payload66 = gen.ExplorePayload66(c, 192) })
+	for _, target := range []byte{0x64, 0x65, 0x66} {
+		for _, r := range []gen.Reach{{Host: true, Kind: "call"}, {Kind: "call", Depth: 1}, {Kind: "call", Depth: 2}} {
+			for _, up := range []bool{true, false} {
+				payload := gen.PatternBytes(64)
+				if target == 0x66 {
+					payload = payload66
+				}
+				cs, caller := gen.PrecompileCase(world.Berlin, target, r, payload, 200000, false)
+				cs.Note = fmt.Sprintf("fork crossing target=%#x reach=%s built %s Berlin, moved to the other side", target, r, map[bool]string{true: "before", false: "behind"}[up])
+				pc := &pcCase{Case: cs, Target: target, Reach: r, HostAns: 0, Caller: caller}
+				log := &hostLog{}
+				rec := &world.ARec{Rec: world.Rec{NoData: true}}
+				opts := world.AOpts{Tracer: rec, Host: scriptedHost(0, log), ChainConfig: &cfg}
+				if !up {
+					opts.BlockNumber = 3000
+				}
+				env := world.NewA(cs, opts)
+				bc := env.BlockCtx
+				if up {
+					bc.BlockNumber = big.NewInt(3000)
+				} else {
+					bc.BlockNumber = big.NewInt(world.BlockNumber)
+				}
+				env.EVM.SetBlockContext(bc)
+				o := runPC(env, pc, rec, log)
+				w.Evals++
+				w.Transitions++
+				h := fw.Hash(cs.Note)
+				w.State(h)
+				w.Extra("fork_crossings", 1)
+				var sig, detail string
+				if up {
+					w.Nontrivial(h)
+					sig, detail = judgePC(pc, o)
+				} else {
+					switch {
+					case o.Panic != "":
+						sig, detail = "panic:"+normPanic(o.Panic), o.Panic
+					case len(log.Calls) != 0:
+						sig, detail = "host_called", fmt.Sprintf("host callbacks %v although the EVM is under pre-Berlin rules", log.Calls)
+					case !o.OK || len(o.Ret) != 0:
+						sig, detail = "not_an_empty_account", fmt.Sprintf("ok=%v ret=%x: before Berlin the address is a code-less account (call succeeds, no data)", o.OK, o.Ret)
+					case o.HaveUsed && o.Used != 0:
+						sig, detail = "fee_charged", fmt.Sprintf("%d gas used by a call to a code-less account", o.Used)
+					}
+				}
+				if sig != "" {
+					w.Violate(fmt.Sprintf("fork_crossing:%#x:%s", target, sig), detail+"\n"+cs.Note, map[string]any{"fork_crossing": true})
+				}
+			}
+		}
+	}
+}
+
 func c14Bound(tier string) int {
 	if tier == "thorough" {
 		return 4
@@ -251,7 +313,7 @@ func init() {
 		ID:        "C14",
 		Level:     "model_checking",
 		Technique: "bounded exhaustive enumeration of precompile target x reach x fork x payload length x ABI head/length words (deviation-bounded) x host answer x gas, plus all ordered pairs of reaches as two-call histories, executed on the real code with recording host callbacks; oracle = reference ABI decoder with unbounded integers and pass-through/attribution rules",
-		Rule: "cases = {0x64,0x65,0x66} x 12 reaches (CALL/CALLCODE/DELEGATECALL/STATICCALL opcodes from depth 1 and 2, 4 host entry points) x {Istanbul, Berlin, Shanghai} x 20 payload lengths x for 0x66 each of the 2 head and 2 length words from a 14-value boundary alphabet with <=k deviations from a well-formed layout x host answer {value, empty, error} x host gas {ample, 5000, 4999}; histories = all ordered pairs of reaches x {same EVM, fresh EVMs} with distinct callers. Oracle per case: fee 5000; exact host arguments; answer/error passed through; malformed/truncated payload rejected with an error and host not called; 0x66 write attributed to the contract whose call reached the precompile or refused. non-trivial = distinct cases in which the host callback was reached",
+		Rule: "cases = {0x64,0x65,0x66} x 12 reaches (CALL/CALLCODE/DELEGATECALL/STATICCALL opcodes from depth 1 and 2, 4 host entry points) x {Istanbul, Berlin, Shanghai} x 20 payload lengths x for 0x66 each of the 2 head and 2 length words from a 14-value boundary alphabet with <=k deviations from a well-formed layout x host answer {value, empty, error} x host gas {ample, 5000, 4999}; fork crossing = each precompile through 3 reaches on an EVM built on one side of the Berlin activation block and moved to the other with SetBlockContext; histories = all ordered pairs of reaches x {same EVM, fresh EVMs} with distinct callers. Oracle per case: fee 5000; exact host arguments; answer/error passed through; malformed/truncated payload rejected with an error and host not called; 0x66 write attributed to the contract whose call reached the precompile or refused. non-trivial = distinct cases in which the host callback was reached",
 		Assumptions: []string{
 			"0x65 payloads longer than 32 bytes are not judged (the statement does not determine which bytes are the hash)",
 			"ABI word values outside the boundary alphabet are not covered",
@@ -263,6 +325,9 @@ func init() {
 		Thorough: 20 * time.Minute,
 		Run: func(w *fw.W) {
 			th := w.Thorough()
+			if w.MineKey(fw.Hash("fork crossing")) {
+				c14ForkCrossing(w)
+			}
 			mc.Explore(c14Bound(w.Tier), func(c *mc.Ctx) {
 				pc := buildPC(c, th)
 				if !w.Mine() {
